@@ -9,6 +9,13 @@ def repo_commits(prefix):
     return [l.split()[0] for l in out.splitlines() if l.split(" ", 1)[1].startswith(prefix)]
 
 CLAIMS = {
+    "C14": dict(
+        level="exploration",
+        technique="differential property-based testing against independent reference implementations: analytic magnitude responses of the cited state-variable designs vs measured sine gains, f64 re-implementations (SVF, delay line with feedback effects, Freeverb network) compared sample by sample, closed-form compressor / distortion / decibel / equal-power laws",
+        text="Each case builds one effect through its public builder with generated parameters and sample rate and checks it against a reference written from the cited papers and sources: measured sine gain vs the analytic response (filter, EQ) with corner / centre / shelf landmarks, sample-by-sample agreement (filter on noise, delay impulse trains incl. non-linear feedback effects, reverb vs an f64 Freeverb network, decaying tail), compressor steady-state reduction and attack time constant, distortion curves and small-signal transparency, volume and panning laws. Search with shrinking.",
+        note="The filter's resonance-to-damping mapping (k = 2 - 1.9 r) is taken from the implementation it cites. Tolerances (0.1 dB widened for corners far below the sample rate, 1e-5 .. 2e-4 per sample) are stated in the rule.",
+        design="5/C14",
+    ),
     "C16": dict(
         level="exploration",
         technique="stateful property-based testing with probe effects recording init / on_change_sample_rate / dt through generated add-track / change-rate / callback histories, plus metamorphic checks of seconds and hertz across a mid-stream rate change",
